@@ -222,3 +222,96 @@ Example framing_premises_inhabited :
   /\ sym_try_decode open (fun _ _ => inr [6]) [] [] (match sym_encode seal (fun _ _ => inr [5]) [] [] (repeat 7 12) [1; 2; 3] with Ok e => e | _ => [] end)
     = Ok (false, match sym_encode seal (fun _ _ => inr [5]) [] [] (repeat 7 12) [1; 2; 3] with Ok e => e | _ => [] end).
 Proof. vm_compute. split; reflexivity. Qed.
+
+(* ================= non-vacuity of the premises ================= *)
+From Symv Require Import Props.Examples.
+
+(* the premises `ed_laws o` and `flavour_ok fl (g_L o) zero_refused` of shared_symmetric / shared_secret_is_product / shared_secret_def
+   are jointly satisfiable: the toy group of Props/Examples.v (integers modulo the regenerated order ed_l, base point 1) is lawful and
+   both shipped flavours are ok for its order.  This shows the laws are not contradictory; it says nothing about edwards25519. *)
+Example generic_scheme_premises_nonvacuous :
+  ed_laws toy_ops /\ flavour_ok sym_flavour (g_L toy_ops) false /\ flavour_ok nem_flavour (g_L toy_ops) true
+  /\ (forall k k', shared_secret toy_ops sym_flavour k (public_key toy_ops sym_flavour k')
+                   = shared_secret toy_ops sym_flavour k' (public_key toy_ops sym_flavour k)).
+Proof.
+  exact (conj toy_group_is_lawful (conj sym_flavour_ok (conj nem_flavour_ok
+    (@EdAbstractProofs.shared_symmetric toy_point toy_ops sym_flavour false toy_group_is_lawful sym_flavour_ok)))).
+Qed.
+Print Assumptions generic_scheme_premises_nonvacuous.
+
+(* [EdZ_group_premise] (premise of every *_partial theorem above) CANNOT be proved here and is not proved anywhere.  This Example only
+   shows that it is NOT REFUTED by kernel-evaluated samples on the integer formulas of Sym/EdZ.v: the Diffie-Hellman square commutes
+   (a (b B) = b (a B), compared projectively by same_point of Props/Examples.v) for a scalar a and a clamped-shape scalar b = 8 j,
+   and the product is not the neutral element.  The samples of the individual group laws are in Props/C07.v
+   (group_premise_not_refuted_on_samples); whole shared-key derivations are compared with OpenSSL by harness/checks/c14.py. *)
+Example group_premise_not_refuted_on_samples :
+  let a := 1003 in let b := 8 * 777 in let A := scalarmult a ed_B in let Bb := scalarmult b ed_B in
+  same_point (scalarmult a Bb) (scalarmult b A) = true
+  /\ same_point A Bb = false
+  /\ is_neutral (scalarmult a Bb) = false.
+Proof. vm_compute. repeat split; reflexivity. Qed.
+Print Assumptions group_premise_not_refuted_on_samples.
+
+(* the premises on the abstract AEAD / CBC cipher / key derivation (open_seal, 16-byte tag, dec_enc, symmetric shared keys, 32-byte public
+   keys) are satisfied by a toy cipher (xor with the first key byte; tag = 16 copies of it), PROVED for all inputs; and with it every
+   remaining premise of try_decode_encode, try_decode_encode_deprecated, nem_try_decode_encode, nem_try_decode_encode_deprecated
+   (incl. "the AES-GCM attempt on the same bytes is refused") and tamper_clean holds together on a concrete message *)
+Definition toy_seal (key iv pt : bytes) : bytes * bytes := (map (Z.lxor (nth 0 key 0)) pt, repeat (nth 0 key 0) 16).
+Definition toy_open (key iv tag ct : bytes) : option bytes :=
+  if beqb tag (repeat (nth 0 key 0) 16) then Some (map (Z.lxor (nth 0 key 0)) ct) else None.
+Definition toy_cbc_enc (key iv pt : bytes) : bytes := map (Z.lxor (nth 0 key 0)) pt.
+Definition toy_cbc_dec (key iv ct : bytes) : option bytes := Some (map (Z.lxor (nth 0 key 0)) ct).
+
+Lemma toy_xor_twice : forall k l, map (Z.lxor k) (map (Z.lxor k) l) = l.
+Proof.
+  intros k l. rewrite map_map. induction l as [|x l IH]; [reflexivity|]. cbn [map]. rewrite IH. f_equal.
+  rewrite <- Z.lxor_assoc, Z.lxor_nilpotent. apply Z.lxor_0_l.
+Qed.
+
+Example framing_premises_nonvacuous :
+  let shared := fun (_ _ : bytes) => @inr dh_error bytes [5] in
+  let other := fun (_ _ : bytes) => @inr dh_error bytes [6] in
+  let shared_dep := fun (_ _ _ : bytes) => @inr dh_error bytes [9] in
+  let public_key_of := fun k : bytes => k in
+  (* the abstract cipher laws *)
+  (forall key iv pt, toy_open key iv (snd (toy_seal key iv pt)) (fst (toy_seal key iv pt)) = Some pt)
+  /\ (forall key iv pt, length (snd (toy_seal key iv pt)) = 16%nat)
+  /\ (forall key iv pt, toy_cbc_dec key iv (toy_cbc_enc key iv pt) = Some pt)
+  /\ (forall a b, shared a (public_key_of b) = shared b (public_key_of a))
+  /\ (forall a b salt, shared_dep a (public_key_of b) salt = shared_dep b (public_key_of a) salt)
+  /\ (forall k, length (public_key_of (repeat k 32)) = 32%nat)
+  (* try_decode_encode / nem_try_decode_encode: key, 12-byte iv, encoding succeeds *)
+  /\ match sym_encode toy_seal shared [] [] (repeat 7 12) [1; 2; 3] with
+     | Ok e => sym_try_decode toy_open shared [] [] e = Ok (true, [1; 2; 3])
+               (* tamper_clean: marker byte 1, at least 29 bytes, the AEAD refuses under another key *)
+               /\ nth_error e 0 = Some 1 /\ Nat.leb 29 (length e) = true
+               /\ toy_open [6] (firstn 12 (skipn 17 e)) (firstn 16 (skipn 1 e)) (skipn 29 e) = None
+               /\ sym_try_decode toy_open other [] [] e = Ok (false, e)
+     | _ => False
+     end
+  /\ match nem_encode toy_seal shared [] [] (repeat 7 12) [1; 2; 3] with
+     | Ok (t, e) => nem_try_decode toy_open toy_cbc_dec shared shared_dep [] [] t e = Ok (true, [1; 2; 3])
+     | _ => False
+     end
+  (* nem_try_decode_encode_deprecated: 32-byte salt, 16-byte iv, encoding succeeds, the AES-GCM attempt on the same bytes is refused *)
+  /\ match nem_encode_deprecated toy_cbc_enc shared_dep [] [] (repeat 2 32) (repeat 3 16) [1; 2; 3] with
+     | Ok (t, e) => toy_open [5] (firstn 12 (skipn 16 e)) (firstn 16 e) (skipn 28 e) = None
+                    /\ nem_try_decode toy_open toy_cbc_dec shared shared_dep [] [] t e = Ok (true, [1; 2; 3])
+     | _ => False
+     end
+  (* try_decode_encode_deprecated: well-formed iv, cipher text and tag *)
+  /\ (wf_bytes (repeat 7 12) = true /\ wf_bytes (fst (toy_seal [5] (repeat 7 12) [1; 2; 3])) = true
+      /\ wf_bytes (snd (toy_seal [5] (repeat 7 12) [1; 2; 3])) = true
+      /\ match sym_encode_deprecated toy_seal shared [] [] (repeat 7 12) [1; 2; 3] with
+         | Ok e => sym_try_decode_deprecated toy_open shared [] [] e = Ok (true, [1; 2; 3])
+         | _ => False
+         end).
+Proof.
+  cbv zeta.
+  split; [intros key iv pt; unfold toy_open, toy_seal; cbn [fst snd]; rewrite beqb_refl, toy_xor_twice; reflexivity|].
+  split; [intros; apply repeat_length|].
+  split; [intros key iv pt; unfold toy_cbc_dec, toy_cbc_enc; rewrite toy_xor_twice; reflexivity|].
+  split; [reflexivity|]. split; [reflexivity|]. split; [intros; apply repeat_length|].
+  vm_compute. repeat split; reflexivity.
+Qed.
+Print Assumptions framing_premises_nonvacuous.
